@@ -267,6 +267,7 @@ type curveVerdict struct {
 	K         int    `json:"k"`
 	S         [3]int `json:"s"`
 	Uncovered int    `json:"uncovered"`
+	Deep      int    `json:"deep"` // uncovered samples that are still "in" with the radius reduced by 15 % of the half width
 	Rin       int    `json:"rin"`
 	Rout      int    `json:"rout"`
 	Q         int    `json:"q"`
@@ -324,7 +325,11 @@ func curveMismatches(s *CurveScenario, v curveVerdict) []core.Mismatch {
 		s.describe(), v.N, v.Uncovered, v.N-v.Uncovered, float64(v.S[0])/float64(v.Q), float64(v.S[1])/float64(v.Q), v.S[2], v.Rin, v.Rout, v.Q)
 	var ms []core.Mismatch
 	if v.Uncovered > 0 {
-		ms = append(ms, core.Mismatch{Signature: "curve-in-uncovered:" + curveTag(s), Detail: det})
+		sig := "curve-in-uncovered:" + curveTag(s)
+		if s.Cv.Type == "arc" && v.Deep == 0 {
+			sig = "curve-in-uncovered-shallow:" + curveTag(s) // only within 15 % of the half width of the boundary
+		}
+		ms = append(ms, core.Mismatch{Signature: sig, Detail: det})
 	}
 	if v.N-v.Uncovered > 0 {
 		ms = append(ms, core.Mismatch{Signature: "curve-out-covered:" + curveTag(s), Detail: det})
